@@ -20,14 +20,18 @@ Open Scope N_scope.
 
 (* the program vocabulary of the harness: 0 = OP_TRUE (not segwit); 1, 2 = addresses 1, 2
    of account 1; 3 = change address 1 of account 1; 4 = address 1 of account 2;
-   5, 6 = segwit programs nobody registered *)
-Definition h_p2w (p : N) : bool := (1 <=? p) && (p <=? 6).
+   5, 6 = segwit programs nobody registered; 10, 11 = address 1 of the multi-signature accounts
+   3 (2-of-2) and 4 (2-of-3): P2WSH programs, standard key space ("msig" stream); 7..9 are the late
+   programs of the "rescan" stream, which is not run through the model *)
+Definition h_p2w (p : N) : bool := ((1 <=? p) && (p <=? 6)) || ((10 <=? p) && (p <=? 11)).
 Definition h_owner (p : N) : option cp :=
   match p with
   | 1 => Some (mkCP 1 1 false)
   | 2 => Some (mkCP 1 2 false)
   | 3 => Some (mkCP 1 1 true)
   | 4 => Some (mkCP 2 1 false)
+  | 10 => Some (mkCP 3 1 false)
+  | 11 => Some (mkCP 4 1 false)
   | _ => None
   end.
 
